@@ -10,8 +10,8 @@ from vf.runner import Ctx, Partial, Violation, digest, hyp_search, shard_map
 RULE = ("HTML documents from a grammar: visible blocks (p/div/h1-6/blockquote/pre/lists/tables/inline formatting/br/img, entities, full document / fragment / no-body shells, "
         "trailing text) interleaved at block and inline level with script/style/noscript/iframe/object/embed/applet elements and comments whose content ranges over text, void "
         "children, self-closing forms, nested removable elements, unclosed children, stray end tags, comments, CDATA sections, JS/CSS text with markup inside, mixed-case tag "
-        "names. Each body is extracted as .html, .mhtml (quoted-printable / base64 / 8bit), as an EPUB chapter (XHTML rendering, well-formed documents only) and through the "
-        "MSG body helper _html_to_text. Oracle: no X (hidden) token in the text; every B (visible) token exactly once, in source order (EPUB: table-cell tokens in the "
+        "names. Each body is extracted as .html, .mhtml (quoted-printable / base64 / 8bit, the encoding's name in any spelling), as an EPUB chapter (XHTML rendering, well-formed documents only; also as the "
+        "first of two chapters, ending inside an unclosed removable element) and through the MSG body helper _html_to_text behind the call site's HTML test (incl. an Office-style shell: no doctype, 3 KB conditional comment first). Oracle: no X (hidden) token in the text; every B (visible) token exactly once, in source order (EPUB: table-cell tokens in the "
         "chapter's tables instead). Non-trivial = >=1 removed element with non-text content and >=1 visible token after it; distinct by document digest x wrapper.")
 ASSUMPTIONS = ["all seven element kinds hide their content regardless of scripting support, as the property states", "tokens are ASCII; output compared on tokens only"]
 
